@@ -11,6 +11,7 @@ import sys
 sys.path.insert(0, os.path.join(os.path.dirname(os.path.abspath(__file__)), '..'))
 from common import Check
 from harness import solver_toy as T
+from props import t_C15
 from fractions import Fraction
 
 TRAIN_EVENTS = {'zero', 'step', 'cstep'}
@@ -135,7 +136,10 @@ def main():
                'non-trivial = at least one epoch ran; every history entry, weight, lowest loss, counter and spy event is compared '
                'with the Coq model (vm_compute), and the property\'s oracle is evaluated on the observations alone')
     ck.step_hygiene()
-    ck.step_prove('P_C15')
+    # regenerate coq/gen/Gen_C15.v from the current BaseSolver.fit (fail-closed); P_C15 proves the generated loop
+    # equal to the model's fit, so a source change that alters the loop breaks the proof
+    if t_C15.step_generate(ck):
+        ck.step_prove('P_C15')
     camp = T.Campaign(ck, 'C15', oracle)
     if ck.replay:
         payload = json.load(open(ck.replay))
